@@ -101,9 +101,26 @@ def _main(only):
         rules = sorted({l.split("  ")[1] for ls in fired.values() for l in ls if len(l.split("  ")) > 2})
         print(sid, sorted(fired), rules, flush=True)
         return (sid, meta["property"], sorted(fired), rules, meta["summary"][:110].replace("|", "/"))
-    rows = _map(one, dirs)
+    rows = _map(one, dirs) if "--only-benign" not in sys.argv else []
     bad += sum(1 for r in rows if not r[2])
     brow = []
+    bonly = None
+    for i, a in enumerate(sys.argv):
+        if a == "--only-benign":
+            bonly = sys.argv[i + 1]          # regex over the file name; implies no seeded run and no MATRIX.md
+    if bonly:
+        import re as _re
+        def oneb(p):
+            fired = seedrun(p)
+            jp = p[:-5] + ".json"
+            if os.path.exists(jp):
+                jm = json.load(open(jp))
+                jm["checks_fired"] = fired
+                json.dump(jm, open(jp, "w"), indent=1)
+            print(os.path.basename(p), sorted(fired), flush=True)
+            return (os.path.basename(p), sorted(fired))
+        brow = _map(oneb, [p for p in sorted(glob.glob(os.path.join(ROOT, "selftest", "benign", "*.diff"))) if _re.search(bonly, os.path.basename(p))])
+        return 1 if any(r[1] for r in brow) else 0
     if "--no-benign" not in sys.argv and not only:
         def oneb(p):
             fired = seedrun(p)
